@@ -1508,6 +1508,35 @@ def r4_expanddof(ctx):
     digits = [t for t in kinds if t[1] == "digits"]
     if not ctx.check(bool(digits), "expanddof has a digit-expansion arm (str(component) -> digits)", fn):
         return
+    # "in the order requested": the expansion walks the request rows in their order and, per row, the characters of str(component) in their order -
+    # not a sorted / de-duplicated / reversed rearrangement of either
+    REARR = ("call:sorted", "call:set", "call:frozenset", "call:reversed", "call:np.unique", "call:np.sort", "call:dict.fromkeys", "call:np.flip",
+             "call:np.flipud", "call:.sort")
+    for p, k, v in digits:
+        comps = find(v, lambda x: head(x) == "comp")
+        if not comps:
+            ctx.error("expanddof: form of the digit expansion (rule reads a comprehension / append loop over the rows and over str(component))", p.ret_node, _show(v))
+            continue
+        gens = [app(a, "gen") for a in (app(comps[0], "comp") or [])[1:]]
+        its = [g[0] for g in gens if g]
+        verdict, shown = None, None
+        for it in its:
+            x = it
+            while head(x) in ("call:list", "call:tuple", "call:iter", "astype") and app(x, head(x)):
+                x = app(x, head(x))[0]
+            x = strip(x)
+            if head(x) == "call:str" or sym_of(x) == dofp:
+                continue
+            if find(x, lambda y: head(y) in REARR):
+                verdict, shown = False, it
+                break
+            if verdict is None and not (head(x) == "call:str" or sym_of(x) == dofp):
+                verdict, shown = "unknown", it
+        if verdict == "unknown":
+            ctx.error("expanddof: iteration order of the digit expansion not recognised", p.ret_node, _show(shown))
+        else:
+            ctx.check(verdict is None, "expanddof: the digit expansion walks the request rows and the digits of each component in the order given (rows "
+                                       "[id, c] in the order requested)", p.ret_node, None if verdict is None else {"iterates over": _show(shown)})
     # the digit expansion is refused when a digit exceeds 6
     bad, unclear = None, None
     for p, k, v in digits:
